@@ -23,6 +23,8 @@ TextsR == TextsUpTo(MaxLenRep)
 Short  == TextsUpTo(2)
 Needles == {<<>>} \cup {<<c>> : c \in {97, 98, 65}} \cup {<<c, d>> : c \in {97, 98, 65}, d \in {97, 98, 65}}
 Blanky == {s \in [1..5 -> {97, 32}] : TRUE} \cup {s \in [1..4 -> {97, 32}] : TRUE}
+\* white space that is NOT the blank: TRIM (and every other function) leaves tab, no-break space and line feed alone
+Whitey == UNION {[1..k -> {97, 32, 160, 9, 10}] : k \in 1..3} \cup {<<c, 97, 98, d>> : c, d \in {32, 160, 9, 10, 12288}}
 Repl   == {<<>>, <<88>>, <<97, 98>>, <<34>>}
 NonText == {Whole(0), Whole(123), Whole(-45), Rat(3, 2), Rat(-1, 4), Bool(TRUE), Bool(FALSE), Blank}
 
@@ -31,6 +33,8 @@ C(f, a) == [f |-> f, args |-> a]
 InitCase ==
   \/ \E f \in {"LEN", "UPPER", "LOWER", "TRIM"}, s \in Texts : case = C(f, <<Txt(s)>>)
   \/ \E s \in Blanky : case = C("TRIM", <<Txt(s)>>)
+  \/ \E f \in {"TRIM", "LEN", "UPPER", "LOWER"}, s \in Whitey : case = C(f, <<Txt(s)>>)
+  \/ \E f \in {"LEFT", "RIGHT"}, s \in Whitey : case = C(f, <<Txt(s), Whole(1)>>)
   \/ \E f \in {"LEFT", "RIGHT"}, s \in Texts : case = C(f, <<Txt(s)>>)
   \/ \E f \in {"LEFT", "RIGHT"}, s \in Texts, n \in -2..(MaxLen + 2) : case = C(f, <<Txt(s), Whole(n)>>)
   \/ \E s \in Texts, p \in -1..(MaxLen + 2), n \in -1..(MaxLen + 2) : case = C("MID", <<Txt(s), Whole(p), Whole(n)>>)
